@@ -220,7 +220,10 @@ def gen_op(rng, recipe, pool="all"):
             return {"m": "fdspr", "via": via, "kw": {"mom": rng.choice([1, 2])}}
         return {"m": "mss", "via": via, "kw": {"depth": rng.choice([10.0, 50.0])}}
     if g == "stats":
-        names = [n for n in ("hs", "tp", "dpm", "tm01", "tm02", "dm", "dspr", "fp", "dp", "gamma", "sw", "alpha", "dpspr") if has_dir or n not in NEEDS_DIR]
+        # any statistic may appear in a stats() list, also those whose value depends on more than one spectrum's bins
+        # (hmax: duration from the time axis)
+        names = [n for n in ("hs", "tp", "dpm", "tm01", "tm02", "dm", "dspr", "fp", "dp", "gamma", "sw", "alpha", "dpspr",
+                             "hmax", "hrms", "goda", "swe", "gw", "crsd", "mss", "uss") if has_dir or n not in NEEDS_DIR]
         k = rng.randint(2, 4)
         chosen = rng.sample(names, min(k, len(names)))
         kw = {}
